@@ -278,6 +278,7 @@ func (i *Interp) validateRequired(t types.Type, v value, path string, depth int)
 			rules := strings.Split(tag, ",")
 			// rules before `dive` apply to the field, rules after it to its elements
 			required, dive, omitempty, elemRequired := false, false, false, false
+			var custom, elemCustom []string
 			for _, r := range rules {
 				switch r {
 				case "required":
@@ -292,6 +293,14 @@ func (i *Interp) validateRequired(t types.Type, v value, path string, depth int)
 					if !dive {
 						omitempty = true
 					}
+				default:
+					if _, ok := i.customValidators[r]; ok {
+						if dive {
+							elemCustom = append(elemCustom, r)
+						} else {
+							custom = append(custom, r)
+						}
+					}
 				}
 			}
 			zeroV := isZeroForValidate(f.Type(), sv[k])
@@ -304,6 +313,22 @@ func (i *Interp) validateRequired(t types.Type, v value, path string, depth int)
 			if tag == "-" {
 				continue
 			}
+			for _, r := range custom {
+				if !i.runCustomValidator(r, f.Type(), sv[k]) {
+					return "field '" + fp + "' failed its '" + r + "' validation"
+				}
+			}
+			elem := func(et types.Type, e value, ep string) string {
+				if elemRequired && isZeroForValidate(et, e) {
+					return "field '" + ep + "' is required"
+				}
+				for _, r := range elemCustom {
+					if !i.runCustomValidator(r, et, e) {
+						return "field '" + ep + "' failed its '" + r + "' validation"
+					}
+				}
+				return i.validateRequired(et, e, ep, depth+1)
+			}
 			switch ft := f.Type().Underlying().(type) {
 			case *types.Struct, *types.Pointer, *types.Interface:
 				if msg := i.validateRequired(f.Type(), sv[k], fp, depth+1); msg != "" {
@@ -313,11 +338,20 @@ func (i *Interp) validateRequired(t types.Type, v value, path string, depth int)
 				if dive {
 					if s, ok := sv[k].([]value); ok {
 						for n, e := range s {
-							if elemRequired && isZeroForValidate(ft.Elem(), e) {
-								return fmt.Sprintf("field '%s[%d]' is required", fp, n)
-							}
-							if msg := i.validateRequired(ft.Elem(), e, fmt.Sprintf("%s[%d]", fp, n), depth+1); msg != "" {
+							if msg := elem(ft.Elem(), e, fmt.Sprintf("%s[%d]", fp, n)); msg != "" {
 								return msg
+							}
+						}
+					}
+				}
+			case *types.Map:
+				if dive {
+					if m, ok := sv[k].(*smap); ok && m != nil {
+						for p := range m.vals {
+							if p < len(m.live) && m.live[p] {
+								if msg := elem(ft.Elem(), m.vals[p], fmt.Sprintf("%s[%s]", fp, describe(m.keys[p]))); msg != "" {
+									return msg
+								}
 							}
 						}
 					}
@@ -326,6 +360,20 @@ func (i *Interp) validateRequired(t types.Type, v value, path string, depth int)
 		}
 	}
 	return ""
+}
+
+// runCustomValidator calls the function goflow registered for a validation
+// tag with a FieldLevel whose Field() is the given value (the only part of
+// the interface goflow's validators use).
+func (i *Interp) runCustomValidator(tag string, t types.Type, v value) bool {
+	fn := i.customValidators[tag]
+	pkg := i.prog.ImportedPackage("github.com/nyaruka/goflow/zzverif")
+	if fn == nil || pkg == nil || pkg.Type("FieldLevel") == nil || i.vfr == nil {
+		return true
+	}
+	flT := pkg.Type("FieldLevel").Object().Type()
+	fl := iface{t: flT, v: structure{iface{}, mkRV(t, copyVal(v), nil)}}
+	return i.truth(i.call(i.vfr, 0, fn, []value{fl}), i.vfr, "validate:"+tag)
 }
 
 func reflectTagGet(tag, key string) string {
